@@ -1,5 +1,6 @@
 CONSTANTS IB = 1  PB = 2  NF = 10  Leafs = {20}  Sizes = {0, 1, 4, 5}  FailPoints = {0, 1, 2, 3}  MaxOps = 2  Bug = ""  Emit = TRUE
-  OpKinds = {"map", "unmap", "maptemp", "mapregion", "identity", "switch"}
+  OpKinds = {"map", "unmap", "maptemp", "mapregion", "identity", "switch", "poke"}
+  PokeBits = {5, 6, 63}
   Props = {"C04"}
 CONSTANT U <- MCU1
 CONSTANT OpPages <- MCOpPages1
